@@ -1523,7 +1523,9 @@ fn classify(_c: &GenCase, _r: &CaseResult, f: &Finding) -> Option<String> {
     match sig {
         // the in-program model decided; cross-check the part of the model that is textual
         SIG_RAW => (f.observed.replace("r#", "") == f.expected && f.observed != f.expected).then(|| SIG_RAW.to_string()),
-        SIG_FLAGS => (!f.observed.contains("r#")).then(|| SIG_FLAGS.to_string()),
+        // (the in-program model decides by text equality with the twin that carries only this defect; the output itself may
+        // contain the characters `r#` — a `#` fill next to `true` gave `#tr#false` and a false alarm in a thorough run)
+        SIG_FLAGS => Some(SIG_FLAGS.to_string()),
         SIG_BOTH => (f.observed.contains("r#")).then(|| SIG_BOTH.to_string()),
         _ => None,
     }
@@ -1580,7 +1582,8 @@ pub fn prop() -> DiceProp {
             ("field_fmt_empty_literal".into(), 0.01),
             ("generic_param_in_composite_type".into(), 0.06),
             ("nested_generic_instantiated_with_param".into(), 0.01),
-            ("empty_enum".into(), 0.003),
+            // (no floor for `empty_enum`: the class has only a handful of distinct programs, de-duplication by text makes
+            // its share shrink with the size of the run)
         ],
         shards: 0,
     }
